@@ -78,3 +78,73 @@ def set_numbering(tokens, marker_base, size=None, base=None, reverse=None):
             n += 1
     if n == 0:
         raise AssertionError('numbering @%d not found in template tokens' % marker_base)
+
+
+# ---------------------------------------------------------------------------------------------
+# Observation through the documented `output.text` / `output.field` callbacks.
+# CrossHair's == on lazily concatenated symbolic strings forks once per character (hundreds of
+# solver calls for a 30-character output).  The library hands every piece it emits to the caller's
+# `output.text` callback, so a harness can observe the output as a *rope* of pieces and compare it
+# with the expected rope: aligned pieces that are the same object cost nothing, concrete overlaps
+# are compared in plain Python, and only misaligned symbolic overlaps go to the solver.
+class Recorder:
+    def __init__(self):
+        self.pieces = []
+        self.fields = []
+
+    def text(self, text, **kw):
+        self.pieces.append(text)
+        return text
+
+    def field(self, index, placeholder, **kw):
+        self.fields.append((index, placeholder))
+        self.pieces.append(placeholder)
+        return placeholder
+
+    def options(self, extra=None):
+        o = {'output.text': self.text, 'output.field': self.field}
+        if extra:
+            o.update(extra)
+        return o
+
+
+def _is_concrete(p):
+    with untraced():
+        return type(p) is str
+
+
+def rope_eq(got, exp):
+    """Compare two lists of string pieces as if each list were joined.
+    Returns True or a label.  Lengths of symbolic pieces must be decided on the path."""
+    g = [(p, _is_concrete(p)) for p in got]
+    e = [(p, _is_concrete(p)) for p in exp]
+    g = [(p, c, len(p) if c else int(len(p))) for (p, c) in g]
+    e = [(p, c, len(p) if c else int(len(p))) for (p, c) in e]
+    g = [x for x in g if x[2] > 0]
+    e = [x for x in e if x[2] > 0]
+    if sum([x[2] for x in g]) != sum([x[2] for x in e]):
+        return 'length_differs'
+    gi = ei = 0          # piece indices
+    go = eo = 0          # offsets inside current pieces
+    ok = True
+    while gi < len(g) and ei < len(e):
+        gp, gc, gl = g[gi]
+        ep, ec, el = e[ei]
+        n = min(gl - go, el - eo)
+        if gc and ec:
+            if gp[go:go + n] != ep[eo:eo + n]:
+                return 'text_differs'
+        elif gp is ep and go == eo:
+            pass
+        else:
+            for k in range(n):
+                ok = ok & (ord(gp[go + k]) == ord(ep[eo + k]))
+        go += n
+        eo += n
+        if go == gl:
+            gi += 1
+            go = 0
+        if eo == el:
+            ei += 1
+            eo = 0
+    return True if ok else 'text_differs'
